@@ -21,10 +21,13 @@ func VerifTilePath() {
 	rt.Assume(N >= 0)
 	rt.Assume(W >= 1 && W <= leavesPerTile)
 	t := tlog.Tile{H: tileHeight, L: L, N: N, W: W}
-	base := "https://sum.example"
+	base := rt.Str("base") // any base URL, with or without a path of its own
 	tr := tileReader{c: client.NewSumDB(tileHeight, nil, base, &http.Client{})}
 	rt.ResetEvents()
 	_, _ = tr.ReadTiles([]tlog.Tile{t})
+	if rt.Count("urlfail") > 0 {
+		return // url.Parse / NewRequest may fail in the model (they cannot for these inputs in reality)
+	}
 	ev, ok := rt.Find("http.Get", 0)
 	rt.Assert(ok && rt.Count("http.Get") == 1, "C18/one-request-per-tile")
 	if !ok {
